@@ -991,6 +991,8 @@ class Builtins:
         if name == "some":
             return SV(S.some(a[0].ty, a[0].t), T.Opt(a[0].ty))
         if name == "the":
+            if a[0].ty.kind != "opt":
+                return a[0]           # already narrowed by a test on the path
             return SV(S.the(a[0].ty.args[0], a[0].t), a[0].ty.args[0])
         if name == "replace_all":
             return SV("(str.replace_all %s %s %s)" % (a[0].t, a[1].t, a[2].t), T.STR)
